@@ -142,7 +142,7 @@ pub fn replay_e2(prop: &str, case: serde_json::Value) -> R<CaseMeta> {
 
 use crate::fault::{run_fault_dyn, FaultCase};
 
-pub const C14_RULE: &str = "fault runs: generated histories of 4-12 ops (put/overwrite/shared content/remove/remove_range/checkpoint/reads; N in {1,2,3,100}; both sync modes); in 60% of the cases a fault-free earlier session first populates the store (so the faulty session continues existing segments / snapshots); a dry traced run counts the K eligible filesystem calls (mutating calls and fsync/fdatasync) after the store is open; then for EVERY k in 1..=K a fresh worker process runs the whole history with the k-th call failing (EIO, or ENOSPC for write/open/mkdir in 30% of the cases) without side effect; oracle: no panic, no hang (20 s watchdog, confirmed 3x), every op returns; an uncertainty model makes exactly the keys of a failed op {old,new}; every later result, a full read before close, a clean reopen (must succeed) and a full read after it must be consistent with some resolution, all other keys exact. evaluations = fault runs; non-trivial = the fault fired inside an op and >=2 later ops ran; distinct by (history, k, errno)";
+pub const C14_RULE: &str = "fault runs: generated histories of 4-12 ops (put/overwrite/shared content/remove/remove_range/checkpoint/reads; N in {1,2,3,100}; both sync modes); in 60% of the cases a fault-free earlier session first populates the store (so the faulty session continues existing segments / snapshots); a dry traced run counts the K eligible filesystem calls (mutating calls and fsync/fdatasync) after the store is open; then for EVERY k in 1..=K a fresh worker process runs the whole history with the k-th call failing (EIO, or ENOSPC for write/open/mkdir in 30% of the cases) without side effect; oracle: no panic, no hang (20 s watchdog, confirmed 3x), every op returns; an uncertainty model makes exactly the keys of a failed op {old,new}; every later result, a full read before close, a clean reopen (must succeed) and a full read after it must be consistent with some resolution, all other keys exact; then one more put on the reopened store, a second clean reopen, and that put must be there with every other key unchanged. evaluations = fault runs; non-trivial = the fault fired inside an op and >=2 later ops ran; distinct by (history, k, errno)";
 
 pub fn run_c14(ctx: &Ctx, acc: &Mutex<Acc>) -> Option<Violation> {
     crate::proc::ensure_shim();
@@ -155,6 +155,34 @@ pub fn run_c14(ctx: &Ctx, acc: &Mutex<Acc>) -> Option<Violation> {
         m.class(if case.enospc { "errno_enospc" } else { "errno_eio" });
         Ok(m)
     })
+}
+
+pub const C20_FAULT_RULE: &str = "fault part: the fault-injection campaign of C14 (every eligible filesystem call of a generated history fails once, EIO/ENOSPC; 60% of the stores pre-populated by an earlier session) judged with the independent on-disk reader: after the clean reopen that follows the faulty session, and again after one more acknowledged put on the reopened store, index and every segment must parse strictly, versions must be increasing and in their segment's range, and snapshot + log must decode to exactly the state the store shows (no acknowledged record at or below the snapshot version, no version used twice). Failures of the C14 oracle itself are not reported here (discarded, counted). non-trivial = the fault fired inside an op and >=2 later ops ran; distinct by (history, k, errno)";
+
+pub fn run_c20_fault(ctx: &Ctx, acc: &Mutex<Acc>) -> Option<Violation> {
+    crate::proc::ensure_shim();
+    crate::fault::ONDISK_LENS.store(true, std::sync::atomic::Ordering::SeqCst);
+    let cases = ctx.tier.scale(2, 10);
+    let v = campaign(ctx, acc, "fault-ondisk", "E2FD", cases, 30, |_shard| gen::fault_case(), |case: &FaultCase| {
+        match run_fault_dyn(case, &|_s: &str| false) {
+            Ok(m) => Ok(m),
+            Err(f) if f.sig.starts_with("ondisk/") => Err(f),
+            Err(_) => Ok(CaseMeta { discarded: true, ..Default::default() }),
+        }
+    });
+    crate::fault::ONDISK_LENS.store(false, std::sync::atomic::Ordering::SeqCst);
+    v
+}
+
+pub fn replay_c20_fault(case: serde_json::Value) -> R<CaseMeta> {
+    let case: FaultCase = serde_json::from_value(case).expect("harness: bad fault replay case");
+    crate::fault::ONDISK_LENS.store(true, std::sync::atomic::Ordering::SeqCst);
+    let r = run_fault_dyn(&case, &|_s: &str| false);
+    crate::fault::ONDISK_LENS.store(false, std::sync::atomic::Ordering::SeqCst);
+    match r {
+        Err(f) if !f.sig.starts_with("ondisk/") => Ok(CaseMeta { discarded: true, ..Default::default() }),
+        other => other,
+    }
 }
 
 pub fn replay_c14(case: serde_json::Value) -> R<CaseMeta> {
